@@ -1,5 +1,5 @@
 """property -> rules"""
-from . import rules_dd, rules_bounds
+from . import rules_dd, rules_bounds, rules_limits
 
 CLANG = "clang 14 parser, constant evaluator and CFG builder (via tools/h4x.cc)"
 CDB = "compile flags taken from ninja -t compdb of /repo/_build (or a throw-away cmake configure)"
@@ -46,6 +46,16 @@ PROPS["C17"] = {
 
 PROPS["C02"] = {
     "rules": [rules_bounds.rule_F2_arrays, rules_dd.rule_F3, rules_dd.rule_F3b, rules_dd.rule_F11b, rules_dd.rule_F11c],
+    "level": "other",
+    "explanation": "TODO",
+    "rule_text": "TODO",
+    "trusted": [CLANG, CDB],
+    "assumptions": [],
+    "level_text": "TODO", "level_note": "TODO", "technique": "TODO",
+}
+
+PROPS["C20"] = {
+    "rules": [rules_limits.rule_F9a, rules_limits.rule_F9b, rules_limits.rule_F9c],
     "level": "other",
     "explanation": "TODO",
     "rule_text": "TODO",
